@@ -144,7 +144,7 @@ theorem abs_missing_bounds (e : Exp α) (req : Req) (s : St α)
 
 /-- the retained (non-dominated) operands of a `min`/`max`, as computed by `linearize_extreme`. -/
 def extFlags (kind : ExtKind) (es : List (Exp α)) (bm : BoundsMap α) : List Bool :=
-  retainedFlags kind (boundsOfList bm es)
+  retainedFlagsE kind es (boundsOfList bm es)
 
 /-- the `min`/`max` of the retained operands (the expression named in the error). -/
 def extRetained (kind : ExtKind) (es : List (Exp α)) (bm : BoundsMap α) : Exp α :=
